@@ -1,9 +1,15 @@
 pub mod sandbox;
+pub mod space;
 pub mod workers;
 
 pub fn worker_main(args: &[String]) -> i32 {
     let name = args.first().map(|x| x.as_str()).unwrap_or("");
     match name {
+        "c07" => workers::worker_entry(args, crate::props::c07::worker),
+        "c10" => workers::worker_entry(args, crate::props::c10::worker),
+        "c11-stdfs" => workers::worker_entry(args, crate::props::c11::stdfs_worker),
+        "c17" => workers::worker_entry(args, crate::props::c17::worker),
+        "c18" => workers::worker_entry(args, crate::props::c18::worker),
         _ => {
             eprintln!("machinery: unknown worker {:?}", name);
             2
